@@ -51,6 +51,47 @@ func eqLabels(a, b []string) bool {
 	return true
 }
 
+// partialOrder checks an event sequence against a set of required steps with precedence
+// constraints: every event is a known step, none occurs twice, `a before b` holds whenever b
+// occurred, and (complete) every step occurred. It returns "" or what is wrong.
+func partialOrder(got, steps []string, before [][2]string, complete bool) string {
+	idx := map[string]int{}
+	known := map[string]bool{}
+	for _, s := range steps {
+		known[s] = true
+	}
+	for i, g := range got {
+		if !known[g] {
+			return "unexpected step " + g
+		}
+		if _, dup := idx[g]; dup {
+			return "step " + g + " occurs twice"
+		}
+		idx[g] = i
+	}
+	for _, pr := range before {
+		ib, okb := idx[pr[1]]
+		if !okb {
+			continue
+		}
+		ia, oka := idx[pr[0]]
+		if !oka {
+			return pr[1] + " without " + pr[0]
+		}
+		if ia > ib {
+			return pr[1] + " before " + pr[0]
+		}
+	}
+	if complete {
+		for _, s := range steps {
+			if _, ok := idx[s]; !ok {
+				return "step " + s + " missing"
+			}
+		}
+	}
+	return ""
+}
+
 func isPrefix(a, b []string) bool {
 	if len(a) > len(b) {
 		return false
@@ -736,13 +777,20 @@ func ruleWriter2(c *Ctx, r *Report, t *chunkTables, prefix string) {
 					}
 					continue
 				}
-				if sp.ErrNil && !eqLabels(l, want) {
-					r.Fail(rule, key, c.Pos(flushChunk.Pos()), fmt.Sprintf("flushChunk returns nil after [%s]; required order: [%s]", strings.Join(l, " "), strings.Join(want, " ")), sp.Trace...)
-					bad = true
-					break
-				}
-				if !sp.ErrNil && !isPrefix(l, want) {
-					r.Fail(rule, key, c.Pos(flushChunk.Pos()), fmt.Sprintf("flushChunk fails after [%s], which is not a prefix of [%s]", strings.Join(l, " "), strings.Join(want, " ")), sp.Trace...)
+				// the order is a partial one: only dependent steps are ordered (the range coder is
+				// closed before the chunk is chosen and written; buffer and limit are reset after
+				// the chunk was written and before the range coder is reopened on them; the chunk
+				// state advances by the type that was written, before that type is replaced; the
+				// snapshot is taken after writeChunk, which may restore encoder.state)
+				before := [][2]string{{"encoder.Close", "writeChunk"}, {"writeChunk", "buf.Reset"}, {"writeChunk", "lbw.N=65536"},
+					{"buf.Reset", "encoder.Reopen"}, {"lbw.N=65536", "encoder.Reopen"}, {"writeChunk", "next(ctype)"},
+					{"next(ctype)", "ctype=default"}, {"writeChunk", "start=clone(encoder.state)"}}
+				if why := partialOrder(l, want, before, sp.ErrNil); why != "" {
+					res := "fails"
+					if sp.ErrNil {
+						res = "returns nil"
+					}
+					r.Fail(rule, key, c.Pos(flushChunk.Pos()), fmt.Sprintf("flushChunk %s after [%s]: %s (required steps: [%s])", res, strings.Join(l, " "), why, strings.Join(want, " ")), sp.Trace...)
 					bad = true
 					break
 				}
